@@ -1210,3 +1210,1009 @@ Proof.
     + apply in_or_app; left. apply mem_str_In; exact E.
     + apply in_or_app; right. apply filter_In. split; [exact Hk|rewrite E; reflexivity].
 Qed.
+
+(* ------------------------------------------------------------------ *)
+(* all parameters: docstring entries + re-parsed signature -> parameters of the result *)
+(* ------------------------------------------------------------------ *)
+Lemma doc_params_modelled : forall et P D, NoDup (map fst P) -> doc_params_agree et P D = true ->
+  params_modelled D = true.
+Proof.
+  intros et P D Hnd H. unfold params_modelled. apply forallb_forall. intros [k p] Hin. cbn [snd].
+  pose proof (doc_keys_NoDup et P D Hnd H) as HndD.
+  assert (Hg : od_get k D = Some p) by (apply In_od_get; assumption).
+  destruct (doc_keys_sub et P D k H (od_get_Some_In_keys _ _ _ Hg)) as [g [Hgin Hpr]].
+  pose proof (doc_lookup et P D k g Hnd H Hgin) as Hl. rewrite Hpr in Hl. destruct Hl as [dp [Hdp Hag]].
+  rewrite Hg in Hdp. inversion Hdp; subst dp. unfold doc_entry_agrees in Hag.
+  apply andb_true_iff in Hag. destruct Hag as [_ Hag].
+  destruct (kwargs_name k); apply andb_true_iff in Hag; destruct Hag as [_ Hag].
+  - destruct (g_default p) as [[v|e|r]|]; try reflexivity; discriminate.
+  - destruct (g_default p); [discriminate|reflexivity].
+Qed.
+
+Lemma params_round_trip : forall o i d,
+  guard_facts o i -> doc_params_agree (negb (fo_inline o)) (ir_params i) (ir_params d) = true ->
+  exists T app m params2,
+    kw_split (reparsed_arguments o i) (ir_params d) = Ok (T, app)
+    /\ params_modelled T = true
+    /\ params_modelled (od_of_pairs (sig_pairs (reparsed_arguments o i) (pos_args (reparsed_arguments o i)))) = true
+    /\ merge_params id_perm T (od_of_pairs (sig_pairs (reparsed_arguments o i) (pos_args (reparsed_arguments o i)))) = Ok m
+    /\ set_names_and_types (append_kw app (sort_by_sig (sig_pos_names (reparsed_arguments o i)) m)) false true = Ok params2
+    /\ same_params_fn (ir_params i) params2 = true.
+Proof.
+  intros o i d GF DA.
+  destruct (kwargs_split (ir_params i) (gf_kwlast _ _ GF)) as [Hsplit Hkwcases].
+  fold (nkp i) in Hsplit. fold (kwp i) in Hsplit, Hkwcases.
+  set (P := ir_params i) in *. set (D := ir_params d) in *. set (et := negb (fo_inline o)) in *.
+  pose proof (gf_nodup _ _ GF) as HndP. fold P in HndP.
+  assert (HndS : NoDup (nk_names i)) by (unfold nk_names, nkp; apply NoDup_fst_filter; exact HndP).
+  assert (HinS : forall n, In n (nk_names i) -> exists g, In (n, g) (nkp i)).
+  { intros n Hn. unfold nk_names in Hn. apply in_map_iff in Hn. destruct Hn as [[n' g] [E Hin]]. cbn [fst] in E. subst n'. eauto. }
+  assert (Hns : forallb not_self_cls (nk_names i) = true).
+  { apply forallb_forall. intros n Hn. destruct (HinS n Hn) as [g Hg]. apply nkp_In in Hg. destruct Hg as [Hg _].
+    apply (name_facts n). apply (gf_names _ _ GF). apply in_map_iff. exists (n, g). auto. }
+  pose proof (gf_kind _ _ GF) as Hkind.
+  rewrite (sig_pairs_reparsed o i Hkind Hns), (sig_pos_names_reparsed o i Hkind Hns).
+  rewrite (od_of_pairs_NoDup (map (sig_entry_of o) (nkp i))) by (rewrite sig_entries_keys; exact HndS).
+  set (O := map (sig_entry_of o) (nkp i)) in *. set (S := nk_names i) in *.
+  assert (HkO : od_keys O = S) by (apply sig_entries_keys).
+  pose proof (doc_keys_NoDup et P D HndP DA) as HndD.
+  pose proof (doc_params_modelled et P D HndP DA) as HmD.
+  (* names of S are not ** names; the ** name is not in S *)
+  assert (HSnk : forall n, In n S -> kwargs_name n = false).
+  { intros n Hn. destruct (HinS n Hn) as [g Hg]. apply nkp_In in Hg. tauto. }
+  (* a documented name other than the ** one is in S *)
+  assert (HDS : forall k, In k (od_keys D) -> kwargs_name k = false -> In k S).
+  { intros k Hk Hnk. destruct (doc_keys_sub et P D k DA Hk) as [g [Hg _]].
+    unfold S, nk_names. apply in_map_iff. exists (k, g). split; [reflexivity|]. apply nkp_In. auto. }
+  (* the kwargs step *)
+  assert (Hks : exists T app, kw_split (reparsed_arguments o i) D = Ok (T, app) /\ params_modelled T = true
+                 /\ (forall k, In k (od_keys T) -> In k S) /\ (forall n, In n S -> od_get n T = od_get n D)
+                 /\ ((app = [] /\ kwp i = [])
+                     \/ exists kn kg dp, kwp i = [(kn, kg)] /\ kwargs_name kn = true /\ In (kn, kg) P
+                          /\ app = [(kn, mkG (g_doc dp) (g_typ dp) (Some (DV (VStr NoneStr))))]
+                          /\ doc_entry_agrees et kn kg dp = true /\ kwargs_class kg = None)).
+  { unfold kw_split. rewrite kwarg_reparsed. unfold kwarg_of.
+    destruct Hkwcases as [Hk0|[[kn kg] Hk1]].
+    - rewrite Hk0. exists D, []. split; [reflexivity|]. split; [exact HmD|]. split.
+      + intros k Hk. apply HDS; [exact Hk|]. destruct (doc_keys_sub et P D k DA Hk) as [g [Hg _]].
+        destruct (kwargs_name k) eqn:E; [|reflexivity]. exfalso.
+        assert (Hin : In (k, g) (kwp i)) by (apply kwp_In; auto). rewrite Hk0 in Hin. destruct Hin.
+      + split; [reflexivity|]. left. auto.
+    - rewrite Hk1. cbn [fst a_name].
+      assert (Hkin : In (kn, kg) (kwp i)) by (rewrite Hk1; left; reflexivity).
+      apply kwp_In in Hkin. destruct Hkin as [HkP Hknm].
+      pose proof (gf_params _ _ GF kn kg HkP) as Hcls. unfold C03Spec.param_class in Hcls. rewrite Hknm in Hcls.
+      assert (Hpr : has_prose kg = true).
+      { unfold kwargs_class in Hcls. destruct (has_prose kg); [reflexivity|discriminate]. }
+      pose proof (doc_lookup et P D kn kg HndP DA HkP) as Hl. rewrite Hpr in Hl. destruct Hl as [dp [Hdp Hag]].
+      destruct (kwargs_entry_codec et kn kg dp Hknm Hcls Hag) as [Hfp _].
+      rewrite Hdp, Hfp.
+      exists (od_pop kn D), [(kn, mkG (g_doc dp) (g_typ dp) (Some (DV (VStr NoneStr))))].
+      split; [reflexivity|]. split; [unfold params_modelled in *; apply forallb_od_pop; exact HmD|]. split.
+      + intros k Hk. rewrite (od_keys_pop kn D HndD) in Hk. apply filter_In in Hk. destruct Hk as [Hk Hne].
+        apply HDS; [exact Hk|]. destruct (doc_keys_sub et P D k DA Hk) as [g [Hg _]].
+        destruct (kwargs_name k) eqn:E; [|reflexivity]. exfalso.
+        assert (Hin : In (k, g) (kwp i)) by (apply kwp_In; auto). rewrite Hk1 in Hin. destruct Hin as [Hin|[]].
+        inversion Hin; subst. rewrite str_eqb_refl in Hne. discriminate.
+      + split.
+        * intros n Hn. apply od_get_pop_other. intros ->. rewrite (HSnk _ Hn) in Hknm. discriminate.
+        * right. exists kn, kg, dp. auto 10. }
+  destruct Hks as (T & app & Hkw & HmT & HTS & HTget & Happ).
+  destruct (merge_params_ok T O (sig_entries_no_DO o (nkp i))) as [m Hm].
+  exists T, app, m.
+  (* the merged map in signature order *)
+  set (X := sort_by_sig S m).
+  assert (HkX : od_keys X = S) by (apply (sorted_keys S T O m HndS HkO HTS Hm)).
+  assert (HndO : NoDup (od_keys O)) by (rewrite HkO; exact HndS).
+  (* every positional / keyword-only entry *)
+  assert (Hentry : forall n g, In (n, g) (nkp i) ->
+            exists q rp, od_get n X = Some q /\ snt_param n q false true = Ok rp /\ same_param_fn g rp = true).
+  { intros n g Hin. pose proof Hin as Hin'. apply nkp_In in Hin'. destruct Hin' as [HinP Hnk].
+    assert (HnS : In n S) by (unfold S, nk_names; apply in_map_iff; exists (n, g); auto).
+    pose proof (gf_entries _ _ GF n g HinP) as Hdom.
+    assert (Hname : name_in_domain n = true) by (apply (gf_names _ _ GF); apply in_map_iff; exists (n, g); auto).
+    destruct (param_class_inv o n g Hnk Hdom (gf_params _ _ GF n g HinP)) as [v F].
+    pose proof (doc_lookup et P D n g HndP DA HinP) as Hl.
+    destruct (param_entry_codec o n g v (od_get n D) F Hdom Hname Hnk) as (q & rp & Hmerge & Hsnt & Hsame).
+    { destruct (has_prose g); [destruct Hl as [dp [Hdp Hag]]; exists dp; auto|exact Hl]. }
+    exists q, rp. split; [|auto].
+    unfold X. rewrite (sort_by_sig_get S m n HndS).
+    pose proof (sig_entries_get o (nkp i) n g HndS Hin) as HgO. fold O in HgO.
+    destruct (od_get n D) as [t|] eqn:EgD.
+    - assert (HgT : od_get n T = Some t) by (rewrite (HTget n HnS); exact EgD).
+      destruct (merge_params_get_both id_perm T O m n t _ id_perm_ok HndO Hm HgT HgO) as [t' [Hmp Hgm]].
+      rewrite Hmerge in Hmp. inversion Hmp; subst t'. exact Hgm.
+    - assert (HgT : od_get n T = None) by (rewrite (HTget n HnS); exact EgD).
+      rewrite (merge_params_get_new id_perm T O m n id_perm_ok HndO Hm HgT). rewrite HgO, Hmerge. reflexivity. }
+  (* the parameter map handed to _set_name_and_type *)
+  set (params1 := append_kw app X).
+  assert (Hp1 : od_keys params1 = map fst P
+                /\ (forall n g, In (n, g) P -> exists q rp, od_get n params1 = Some q /\ snt_param n q false true = Ok rp
+                                                           /\ same_param_fn g rp = true)).
+  { destruct Happ as [[Ha Hk0]|(kn & kg & dp & Hk1 & Hknm & HkP & Ha & Hag & Hcls)].
+    - subst app. unfold params1, append_kw. cbn [fold_left]. split.
+      + rewrite HkX. rewrite Hsplit, Hk0, app_nil_r. reflexivity.
+      + intros n g Hin. apply Hentry. rewrite Hsplit, Hk0, app_nil_r in Hin. exact Hin.
+    - subst app. unfold params1, append_kw. cbn [fold_left fst snd].
+      assert (HknS : ~ In kn S) by (intros Hx; rewrite (HSnk _ Hx) in Hknm; discriminate).
+      split.
+      + rewrite od_keys_set_absent by (rewrite HkX; exact HknS). rewrite HkX. rewrite Hsplit, Hk1, map_app. reflexivity.
+      + intros n g Hin. rewrite Hsplit, Hk1 in Hin. apply in_app_or in Hin. destruct Hin as [Hin|[Hin|[]]].
+        * destruct (Hentry n g Hin) as (q & rp & Hg & Hs & Hsm). exists q, rp. split; [|auto].
+          rewrite od_get_set_other; [exact Hg|]. intros ->. apply HknS. unfold S, nk_names. apply in_map_iff. exists (n, g). auto.
+        * inversion Hin; subst n g.
+          destruct (kwargs_entry_codec et kn kg dp Hknm Hcls Hag) as [_ [rp [Hs Hsm]]].
+          eexists. exists rp. split; [apply od_get_set_same|]. auto. }
+  destruct Hp1 as [Hkeys1 Hget1].
+  assert (Hnd1 : NoDup (od_keys params1)) by (rewrite Hkeys1; exact HndP).
+  assert (Hok1 : forallb name_ok (od_keys params1) = true).
+  { rewrite Hkeys1. apply forallb_forall. intros n Hn. apply (name_facts n). apply (gf_names _ _ GF). exact Hn. }
+  (* _set_name_and_type succeeds on every entry *)
+  assert (Hsnt : exists params2, set_names_and_types params1 false true = Ok params2).
+  { unfold set_names_and_types.
+    destruct (mapM_ok_forall (fun kv => set_name_and_type (fst kv) (snd kv) false true) params1) as [l Hl].
+    - intros [k q] Hin. cbn [fst snd].
+      assert (Hgq : od_get k params1 = Some q) by (apply In_od_get; assumption).
+      assert (Hk : In k (map fst P)) by (rewrite <- Hkeys1; eapply od_get_Some_In_keys; exact Hgq).
+      apply in_map_iff in Hk. destruct Hk as [[n g] [E HinP]]. cbn [fst] in E. subst n.
+      destruct (Hget1 k g HinP) as (q' & rp & Hg' & Hs & _). rewrite Hgq in Hg'. inversion Hg'; subst q'.
+      unfold set_name_and_type. rewrite Hs. cbn [bind]. eexists; reflexivity.
+    - rewrite Hl. cbn [bind]. eexists; reflexivity. }
+  destruct Hsnt as [params2 Hsnt].
+  exists params2. split; [exact Hkw|]. split; [exact HmT|]. split; [apply sig_entries_modelled|]. split; [exact Hm|].
+  split; [exact Hsnt|].
+  (* same parameters *)
+  unfold same_params_fn. apply andb_true_iff. split.
+  - rewrite (set_names_and_types_keys params1 false true params2 Hnd1 Hok1 Hsnt). rewrite Hkeys1.
+    unfold od_keys. apply list_eqb_str_refl.
+  - apply forallb_forall. intros [n g] Hin. cbn [fst snd].
+    destruct (Hget1 n g Hin) as (q & rp & Hg & Hs & Hsm).
+    destruct (set_names_and_types_get params1 false true params2 n q Hnd1 Hok1 Hsnt Hg) as (rp' & Hs' & Hg2).
+    rewrite Hs in Hs'. inversion Hs'; subst rp'. rewrite Hg2. exact Hsm.
+Qed.
+
+(* ------------------------------------------------------------------ *)
+(* the return entry                                                    *)
+(* ------------------------------------------------------------------ *)
+Record ret_facts (o : fopts) (g : gparam) : Prop := mkRF {
+  rf_prose : prose_class g = None;
+  rf_typ : forall t, g_typ g = Has t -> typ_parses t = true /\ (fo_inline o = true -> ret_typ_inline_ok t = true);
+  rf_cases :
+    (g_default g = None /\ (has_prose g = true \/ (fo_inline o = true /\ exists t, g_typ g = Has t)))
+    \/ (exists c s, g_default g = Some (DV (VStr (c :: s)))
+          /\ ret_code_ok (fo_pt o) (c :: s) = true /\ str_keeps_quotes (c :: s) = true
+          /\ (forall t, g_typ g = Has t -> contains [ch 91] t = true /\ (fo_inline o = false -> has_prose g = true))
+          /\ (g_typ g = Missing -> in_none_types (VStr (c :: s)) || code_val (VStr (c :: s)) = true))
+}.
+
+Lemma return_class_inv : forall o g, entry_in_domain g = true -> C03Spec.return_class o g = None -> ret_facts o g.
+Proof.
+  intros o g Hdom H. unfold C03Spec.return_class in H.
+  destruct (prose_class g) eqn:Ep; [discriminate|].
+  destruct (return_typ_class o g) eqn:Et; [discriminate|].
+  destruct (entry_fields g Hdom) as (_ & Htypf & _).
+  constructor; [exact Ep| |].
+  - intros t Ht. unfold return_typ_class in Et. rewrite Ht in Et.
+    destruct (typ_parses t); [|discriminate]. cbn [negb orb] in Et.
+    split; [reflexivity|]. intros Hi. rewrite Hi in Et. cbn [andb] in Et.
+    destruct (ret_typ_inline_ok t); [reflexivity|discriminate].
+  - destruct (g_default g) as [dv|] eqn:Ed.
+    + right. destruct dv as [v|e|r]; cbn [dv_str] in H; try discriminate.
+      destruct v as [| | | |[|c s]]; cbn [dv_str] in H; try discriminate.
+      exists c, s. split; [reflexivity|].
+      destruct (ret_code_ok (fo_pt o) (c :: s)); [|discriminate].
+      destruct (str_keeps_quotes (c :: s)); [|discriminate]. cbn [negb orb] in H.
+      split; [reflexivity|]. split; [reflexivity|]. split.
+      * intros t Ht. rewrite Ht in H. destruct (contains [ch 91] t); [|discriminate]. cbn [negb] in H.
+        split; [reflexivity|]. intros Hi. rewrite Hi in H. cbn [negb andb] in H.
+        destruct (has_prose g); [reflexivity|discriminate].
+      * intros Hm. rewrite Hm in H.
+        destruct (C02Spec.d_none_like (DV (VStr (c :: s))) || C02Spec.d_code_quoted (DV (VStr (c :: s)))) eqn:E; [exact E|discriminate].
+    + left. split; [reflexivity|]. destruct (has_prose g); [left; reflexivity|]. right.
+      destruct (fo_inline o); [|discriminate]. cbn [andb] in H. split; [reflexivity|].
+      destruct (g_typ g) as [| |t]; try discriminate. exists t. reflexivity.
+Qed.
+
+Lemma dval_eqb_DV : forall d v, dval_eqb d (DV v) = true -> d = DV v.
+Proof.
+  intros d v H. destruct d as [w|e|r]; try discriminate. cbn [dval_eqb] in H.
+  apply EmitAstFacts.pyval_eqb_eq in H. subst. reflexivity.
+Qed.
+
+Lemma ret_typ_ann : forall o t, ret_typ_inline_ok t = true ->
+  exists e, EmitAst.parse_expr_src (fo_pt o) t = Ok e /\ reparse_expr e = Ok e /\ expr_ok e = true
+            /\ rstrip_chars [nl] (show_expr e) = t.
+Proof.
+  intros o t H. unfold ret_typ_inline_ok in H.
+  destruct (EmitAst.parse_expr_src [] t) as [e|] eqn:E; [|discriminate].
+  unfold expr_prints_as in H. apply andb_true_iff in H. destruct H as [H Hs].
+  apply andb_true_iff in H. destruct H as [Hr He].
+  exists e. split; [apply parse_expr_src_nil; exact E|].
+  destruct (reparse_expr e) as [e'|] eqn:Er; [|discriminate]. apply expr_eqb_true in Hr. subst e'.
+  split; [reflexivity|]. split; [exact He|]. apply str_eqb_eq; exact Hs.
+Qed.
+
+(* _infer_default on a scalar str default (the return entry's) *)
+Lemma infer_default_DV_str : forall q s nq,
+  ascii_only s = true -> in_none_types (VStr s) || str_keeps_quotes s = true ->
+  needs_quoting (fget (g_typ q)) = Ok nq ->
+  (forall t, g_typ q = Has t -> code_val (VStr s) = true -> contains [ch 91] t = true) ->
+  (fld_is_none (g_typ q) = true -> in_none_types (VStr s) || code_val (VStr s) = true) ->
+  infer_default q (DV (VStr s)) false = Ok (mkG (g_doc q) (rtyp (g_typ q) (VStr s)) (Some (back (VStr s)))).
+Proof.
+  intros q s nq Ha Hk Hnq Hcode Hunt.
+  set (g' := mkG Missing Missing (Some (DV (VStr s)))).
+  pose proof (infer_default_codec q g' (VStr s) nq eq_refl Ha Hk Hnq Hcode Hunt) as H.
+  destruct (in_none_types (VStr s)) eqn:En.
+  - rewrite (rdflt_none_like g' (VStr s) eq_refl En) in H. rewrite <- H.
+    unfold infer_default. cbn [bind dval_in_none_types none_to_NoneStr]. rewrite En, in_none_types_NoneStr. reflexivity.
+  - cbn [orb] in Hk. rewrite (rdflt_str g' s eq_refl En Hk Ha) in H. rewrite <- H. reflexivity.
+Qed.
+
+(* _interpolate_return, forwards *)
+Definition rt_of (rets : fld gparam) : gparam := match rets with Has p => p | _ => mkG Missing Missing None end.
+
+Definition with_annotation (r : option expr) (rets1 : fld gparam) : fld gparam :=
+  match r with
+  | Some e => Has (mkG (g_doc (rt_of rets1)) (Has (rstrip_chars [nl] (show_expr e))) (g_default (rt_of rets1)))
+  | None => rets1
+  end.
+
+Lemma interp_no_return : forall r rets, (forall e, r = Some e -> expr_ok e = true) ->
+  interpolate_return [] r rets = Ok (with_annotation r rets).
+Proof.
+  intros r rets H. unfold interpolate_return. cbn [last_return rev List.find bind]. unfold with_annotation, rt_of.
+  destruct r as [e|]; [|reflexivity]. rewrite (H e eq_refl). reflexivity.
+Qed.
+
+Definition typ_kept (t : fld str) : fld str :=
+  match t with Has x => if contains [ch 91] x then Has x else Missing | y => y end.
+
+Lemma interp_return : forall v r rets dflt, expr_ok v = true -> g_typ (rt_of rets) <> FNone ->
+  ret_default_of v = Ok dflt -> (forall e, r = Some e -> expr_ok e = true) ->
+  interpolate_return [SReturn (Some v)] r rets
+  = Ok (with_annotation r (Has (mkG (g_doc (rt_of rets)) (typ_kept (g_typ (rt_of rets))) (Some dflt)))).
+Proof.
+  intros v r rets dflt Hv Hfn Hd Hr. unfold interpolate_return.
+  assert (Hl : last_return [SReturn (Some v)] = Some (Some v)) by reflexivity. rewrite Hl. rewrite Hv. cbn [negb].
+  fold (rt_of rets).
+  assert (Ht : (match g_typ (rt_of rets) with
+                | Missing => Ok Missing
+                | FNone => Err TypeError
+                | Has t => Ok (if contains [ch 91] t then Has t else Missing)
+                end) = Ok (typ_kept (g_typ (rt_of rets)))).
+  { unfold typ_kept. destruct (g_typ (rt_of rets)); [reflexivity|congruence|reflexivity]. }
+  rewrite Ht. cbn [bind].
+  unfold ret_default_of in Hd. rewrite Hd. cbn [bind].
+  unfold with_annotation. destruct r as [e|]; [|reflexivity]. rewrite (Hr e eq_refl). reflexivity.
+Qed.
+
+Lemma finish_has : forall p rp, snt_param (L "return_type") p false true = Ok rp -> finish_returns (Has p) = Ok (Has rp).
+Proof. intros p rp H. unfold finish_returns, set_name_and_type. rewrite H. reflexivity. Qed.
+
+Lemma return_type_not_kwargs : kwargs_like (L "return_type") = false.
+Proof. vm_compute. reflexivity. Qed.
+
+Lemma return_type_not_kwargs_name : kwargs_name (L "return_type") = false.
+Proof. vm_compute. reflexivity. Qed.
+
+(* the return entry through _set_name_and_type, without and with a default *)
+Lemma snt_return_no_default : forall qd qt,
+  (forall t, qt = Has t -> endswith google_opt t = false) ->
+  (forall c r, qd = Has (c :: r) -> starts_optional (reflow (c :: r)) = true ->
+               qt = Missing \/ exists t, qt = Has t /\ startswith (L "Optional[") t = true) ->
+  snt_param (L "return_type") (mkG qd qt None) false true = Ok (mkG (rdoc qd) qt None).
+Proof.
+  intros qd qt Hg Ho. unfold snt_param, snt_pre. rewrite return_type_not_kwargs. cbn [g_default bind].
+  apply snt_post_codec; assumption.
+Qed.
+
+Lemma snt_return_default : forall qd qt s nq,
+  ascii_only s = true -> in_none_types (VStr s) || str_keeps_quotes s = true ->
+  needs_quoting (fget qt) = Ok nq ->
+  (forall t, qt = Has t -> code_val (VStr s) = true -> contains [ch 91] t = true) ->
+  (fld_is_none qt = true -> in_none_types (VStr s) || code_val (VStr s) = true) ->
+  (forall t, qt = Has t -> endswith google_opt t = false) ->
+  (forall c r, qd = Has (c :: r) -> starts_optional (reflow (c :: r)) = true ->
+               qt = Missing \/ exists t, qt = Has t /\ startswith (L "Optional[") t = true) ->
+  snt_param (L "return_type") (mkG qd qt (Some (DV (VStr s)))) false true
+  = Ok (mkG (rdoc qd) (rtyp qt (VStr s)) (Some (back (VStr s)))).
+Proof.
+  intros qd qt s nq Ha Hk Hnq Hcode Hunt Hg Ho. unfold snt_param, snt_pre. rewrite return_type_not_kwargs. cbn [g_default].
+  rewrite (infer_default_DV_str (mkG qd qt (Some (DV (VStr s)))) s nq Ha Hk Hnq Hcode Hunt). cbn [bind g_doc g_typ].
+  apply snt_post_codec.
+  - intros t Ht. unfold rtyp in Ht. destruct qt as [| |t0].
+    + destruct (in_none_types (VStr s)); discriminate.
+    + destruct (in_none_types (VStr s)); discriminate.
+    + inversion Ht; subst. apply Hg; reflexivity.
+  - intros c r Hd Hso. destruct (Ho c r Hd Hso) as [Hm|[t [Ht Hst]]].
+    + left. unfold rtyp. rewrite Hm. destruct (in_none_types (VStr s)); reflexivity.
+    + right. exists t. unfold rtyp. rewrite Ht. split; [reflexivity|exact Hst].
+Qed.
+
+Lemma returns_round_trip : forall o i d,
+  guard_facts o i -> doc_returns_agree (negb (fo_inline o)) (ir_returns i) (ir_returns d) = true ->
+  exists rv rv' ann ann',
+    EmitAst.function_return_val (fo_pt o) i = Ok rv
+    /\ ret_ann_o o i = Ok ann
+    /\ mapM reparse_body_stmt (opt_list rv) = Ok (opt_list rv')
+    /\ reparse_opt ann = Ok ann'
+    /\ exists rets rets',
+         interpolate_return (opt_list rv') ann' (doc_returns_in d) = Ok rets
+         /\ finish_returns rets = Ok rets'
+         /\ same_returns_fn (ir_returns i) rets' = true.
+Proof.
+  intros o i d GF DA. pose proof (gf_ret_dom _ _ GF) as Hrd. pose proof (gf_ret _ _ GF) as Hrc.
+  unfold doc_returns_agree in DA. unfold EmitAst.function_return_val, ret_ann_o, EmitAst.returns_param.
+  destruct (ir_returns i) as [| |g] eqn:Er; [contradiction| |].
+  - (* no return entry *)
+    cbn [fget] in *. exists None, None, None, None.
+    split; [reflexivity|]. split; [destruct (fo_inline o); reflexivity|]. split; [reflexivity|]. split; [reflexivity|].
+    assert (Hd : doc_returns_in d = FNone) by (unfold doc_returns_in; destruct (ir_returns d); try discriminate; reflexivity).
+    rewrite Hd. exists FNone, FNone. repeat split; reflexivity.
+  - cbn [fget] in *. pose proof (return_class_inv o g Hrd (Hrc g eq_refl)) as RF.
+    destruct RF as [Hprose Htyp Hcases].
+    destruct (entry_fields g Hrd) as (Hdocf & Htypf & _).
+    set (et := negb (fo_inline o)) in *.
+    (* what the docstring layer hands over *)
+    assert (Hrt : exists rt, rt_of (doc_returns_in d) = rt /\ g_default rt = None
+                   /\ (has_prose g = true -> g_typ rt = (if et then g_typ g else Missing) /\ doc_returns_in d = Has rt)
+                   /\ (has_prose g = false -> g_typ rt = Missing /\ doc_returns_in d = FNone)
+                   /\ (match prose_of g with
+                       | Some x => exists c r, g_doc rt = Has (c :: r) /\ reflow (c :: r) = x
+                       | None => g_doc rt = Missing
+                       end)).
+    { unfold has_prose in *. destruct (prose_of g) as [x|] eqn:Epr.
+      - destruct (ir_returns d) as [| |dp] eqn:Edr; try discriminate.
+        unfold doc_entry_agrees in DA. rewrite Epr, return_type_not_kwargs_name in DA.
+        apply andb_true_iff in DA. destruct DA as [Hy Hrest]. apply andb_true_iff in Hrest. destruct Hrest as [Hty Hdf].
+        destruct (g_doc dp) as [| |y] eqn:Edoc; try discriminate. apply str_eqb_eq in Hy. apply fld_eqb_eq in Hty.
+        destruct (g_default dp) eqn:Edd; [discriminate|].
+        exists dp. unfold doc_returns_in. rewrite Edr. cbn [rt_of]. split; [reflexivity|]. split; [exact Edd|].
+        split; [intros _; split; [exact Hty|reflexivity]|]. split; [discriminate|].
+        destruct y as [|c r].
+        + rewrite reflow_nil in Hy. unfold prose_of, C02Spec.prose_of in Epr.
+          destruct (g_doc g) as [| |[|? ?]]; try discriminate. inversion Epr; subst; discriminate.
+        + exists c, r. split; [exact Edoc|symmetry; exact Hy].
+      - assert (Hd : doc_returns_in d = FNone) by (unfold doc_returns_in; destruct (ir_returns d); try discriminate; reflexivity).
+        exists (mkG Missing Missing None). rewrite Hd. cbn [rt_of g_default g_typ g_doc].
+        split; [reflexivity|]. split; [reflexivity|]. split; [discriminate|]. split; [intros _; split; reflexivity|reflexivity]. }
+    destruct Hrt as (rt & Hrt & Hrtd & Hrtp & Hrtn & Hrtdoc).
+    (* the annotation *)
+    assert (Hann : exists ann, (if fo_inline o then
+                                  match fget (g_typ g) with
+                                  | Some (c :: t) => do e <- EmitAst.parse_expr_src (fo_pt o) (c :: t); Ok (Some e)
+                                  | _ => Ok None
+                                  end
+                                else Ok None) = Ok ann
+                   /\ reparse_opt ann = Ok ann
+                   /\ ((fo_inline o = true /\ exists t e, g_typ g = Has t /\ ann = Some e /\ expr_ok e = true
+                                                      /\ rstrip_chars [nl] (show_expr e) = t)
+                       \/ ((fo_inline o = false \/ g_typ g = Missing) /\ ann = None))).
+    { destruct (fo_inline o) eqn:Ei.
+      - destruct Htypf as [Hm|[c [t Ht]]].
+        + rewrite Hm. cbn [fget]. exists None. split; [reflexivity|]. split; [reflexivity|]. right. auto.
+        + rewrite Ht. cbn [fget]. destruct (Htyp _ Ht) as (_ & Hin).
+          destruct (ret_typ_ann o (c :: t) (Hin eq_refl)) as (e & Hp & Hre & Hok & Hshow).
+          rewrite Hp. cbn [bind]. exists (Some e). split; [reflexivity|]. split; [cbn [reparse_opt]; rewrite Hre; reflexivity|].
+          left. split; [reflexivity|]. exists (c :: t), e. auto.
+      - exists None. split; [reflexivity|]. split; [reflexivity|]. right. auto. }
+    destruct Hann as (ann & Hann & Hannre & Hanncases).
+    assert (Hannok : forall e, ann = Some e -> expr_ok e = true).
+    { intros e He. destruct Hanncases as [[_ (t & e' & _ & Ha & Hok & _)]|[_ Ha]]; [rewrite Ha in He; inversion He; subst; exact Hok|congruence]. }
+    (* type, google suffix, Optional prose: the conditions of the second half of _set_name_and_type *)
+    assert (Hgo : forall t, g_typ g = Has t -> endswith google_opt t = false).
+    { intros t Ht. destruct (Htyp _ Ht) as (Hp & _). destruct (typ_parses_nq _ Hp) as [nq [_ Hg]]. exact Hg. }
+    assert (Hopt : forall c r, g_doc rt = Has (c :: r) -> starts_optional (reflow (c :: r)) = true ->
+                     g_typ g = Missing \/ exists t, g_typ g = Has t /\ startswith (L "Optional[") t = true).
+    { intros c r Hd Hso. destruct (prose_of g) as [x|] eqn:Epr; [|rewrite Hrtdoc in Hd; discriminate].
+      destruct Hrtdoc as (c' & r' & Hd' & Hrf). rewrite Hd in Hd'. inversion Hd'; subst c' r'. rewrite Hrf in Hso.
+      unfold prose_class in Hprose. rewrite Epr in Hprose. destruct (negb (prose_safe x)); [discriminate|].
+      change (C02Spec.prose_starts_optional x) with (starts_optional x) in Hprose. rewrite Hso in Hprose. cbn [andb] in Hprose.
+      destruct (g_typ g) as [| |t]; [left; reflexivity|destruct Htypf as [Hm|[? [? Ht]]]; discriminate|].
+      right. exists t. split; [reflexivity|]. destruct (startswith (L "Optional[") t); [reflexivity|discriminate]. }
+    (* prose comes back *)
+    assert (Hpr_back : C02Spec.opt_str_eqb (C02Spec.prose_of g) (C02Spec.prose_of (mkG (rdoc (g_doc rt)) (g_typ g) None)) = true).
+    { fold (prose_of g). destruct (prose_of g) as [x|] eqn:Epr.
+      - destruct Hrtdoc as (c & r & Hd & Hrf). rewrite Hd. cbn [rdoc]. rewrite Hrf.
+        unfold prose_of, C02Spec.prose_of in Epr. destruct (g_doc g) as [| |[|c0 r0]]; try discriminate. inversion Epr; subst x.
+        cbn [C02Spec.prose_of g_doc C02Spec.opt_str_eqb]. apply str_eqb_refl.
+      - rewrite Hrtdoc. reflexivity. }
+    destruct Hcases as [[Hdef Hwritten]|(c & s & Hdef & Hcode & Hkeep & Htyped & Huntyped)].
+    + (* no return default: the body is the docstring alone *)
+      rewrite Hdef. exists None, None, ann, ann.
+      split; [reflexivity|]. split; [exact Hann|]. split; [reflexivity|]. split; [exact Hannre|].
+      cbn [opt_list]. rewrite (interp_no_return ann (doc_returns_in d) Hannok).
+      assert (Hrets : with_annotation ann (doc_returns_in d) = Has (mkG (g_doc rt) (g_typ g) None)).
+      { unfold with_annotation. rewrite Hrt.
+        destruct Hanncases as [[Hi (t & e & Ht & Ha & _ & Hshow)]|[Hor Ha]]; rewrite Ha.
+        - rewrite Hshow, Hrtd, Ht. reflexivity.
+        - assert (Hp : has_prose g = true).
+          { destruct Hwritten as [Hp|[Hi [t Ht]]]; [exact Hp|]. destruct Hor as [Hi'|Hm]; congruence. }
+          destruct (Hrtp Hp) as [Hty Hdr]. rewrite Hdr. f_equal.
+          destruct rt as [rd rty rdf]. cbn [g_doc g_typ g_default] in *. subst rdf. f_equal.
+          rewrite Hty. destruct Hor as [Hi|Hm]; [unfold et; rewrite Hi; reflexivity|].
+          rewrite Hm. destruct et; reflexivity. }
+      rewrite Hrets. eexists. eexists. split; [reflexivity|]. split.
+      * apply finish_has. apply snt_return_no_default; [exact Hgo|exact Hopt].
+      * unfold same_returns_fn. cbn [fget]. unfold same_param_fn. cbn [g_typ g_doc g_default].
+        apply andb_true_iff. split; [apply andb_true_iff; split|].
+        -- unfold C02Spec.same_typ. cbn [g_typ]. destruct (fget (g_typ g)); cbn [C02Spec.opt_str_eqb]; [apply str_eqb_refl|reflexivity].
+        -- exact Hpr_back.
+        -- unfold C02Spec.default_same. cbn [g_default]. rewrite Hdef. reflexivity.
+    + (* a return default: emitted as `return <code>`, read back from the body *)
+      rewrite Hdef. unfold ret_code_ok in Hcode.
+      destruct (EmitAst.parse_expr_src (fo_pt o) (strip_chars [bt] (c :: s))) as [e|] eqn:Epe; [|discriminate].
+      destruct (reparse_expr e) as [e'|] eqn:Ere; [|discriminate].
+      apply andb_true_iff in Hcode. destruct Hcode as [Hok' Hdv].
+      destruct (ret_default_of e') as [dv|] eqn:Erd; [|discriminate]. apply dval_eqb_DV in Hdv. subst dv.
+      cbn [bind]. exists (Some (SReturn (Some e))), (Some (SReturn (Some e'))), ann, ann.
+      split; [reflexivity|]. split; [exact Hann|].
+      split; [cbn [opt_list mapM reparse_body_stmt reparse_opt]; rewrite Ere; reflexivity|]. split; [exact Hannre|].
+      cbn [opt_list].
+      assert (Hnf : g_typ (rt_of (doc_returns_in d)) <> FNone).
+      { rewrite Hrt. destruct (has_prose g) eqn:Ep.
+        - destruct (Hrtp eq_refl) as [Hty _]. rewrite Hty. destruct et; [|discriminate].
+          destruct Htypf as [Hm|[? [? Ht]]]; [rewrite Hm|rewrite Ht]; discriminate.
+        - destruct (Hrtn eq_refl) as [Hty _]. rewrite Hty. discriminate. }
+      rewrite (interp_return e' ann (doc_returns_in d) _ Hok' Hnf Erd Hannok).
+      assert (Hrets : with_annotation ann (Has (mkG (g_doc (rt_of (doc_returns_in d))) (typ_kept (g_typ (rt_of (doc_returns_in d))))
+                                                   (Some (DV (VStr (c :: s))))))
+                      = Has (mkG (g_doc rt) (g_typ g) (Some (DV (VStr (c :: s)))))).
+      { unfold with_annotation. rewrite Hrt. cbn [rt_of g_doc g_default].
+        destruct Hanncases as [[Hi (t & e0 & Ht & Ha & _ & Hshow)]|[Hor Ha]]; rewrite Ha.
+        - rewrite Hshow, Ht. reflexivity.
+        - f_equal. f_equal.
+          destruct Htypf as [Hm|[c0 [t Ht]]].
+          + rewrite Hm. destruct (has_prose g) eqn:Ep.
+            * destruct (Hrtp eq_refl) as [Hty _]. rewrite Hty, Hm. destruct et; reflexivity.
+            * destruct (Hrtn eq_refl) as [Hty _]. rewrite Hty. reflexivity.
+          + destruct Hor as [Hi|Hm]; [|congruence]. destruct (Htyped _ Ht) as [Hbr Hp]. specialize (Hp Hi).
+            destruct (Hrtp Hp) as [Hty _]. rewrite Hty. unfold et. rewrite Hi. cbn [negb]. rewrite Ht. cbn [typ_kept]. rewrite Hbr. reflexivity. }
+      rewrite Hrets.
+      assert (Hascii : ascii_only (c :: s) = true).
+      { unfold entry_in_domain in Hrd. repeat (apply andb_true_iff in Hrd; destruct Hrd as [Hrd ?]). rewrite Hdef in *. assumption. }
+      assert (Hnq : exists nq, needs_quoting (fget (g_typ g)) = Ok nq).
+      { destruct Htypf as [Hm|[c0 [t Ht]]]; [rewrite Hm; eexists; reflexivity|].
+        rewrite Ht. destruct (Htyp _ Ht) as (Hp & _). destruct (typ_parses_nq _ Hp) as [nq [Hnq _]]. exists nq. exact Hnq. }
+      destruct Hnq as [nq Hnq].
+      eexists. eexists. split; [reflexivity|]. split.
+      * apply finish_has. apply (snt_return_default (g_doc rt) (g_typ g) (c :: s) nq Hascii).
+        -- rewrite Hkeep. apply orb_true_r.
+        -- exact Hnq.
+        -- intros t Ht _. apply (Htyped t Ht).
+        -- intros Hn. apply Huntyped. destruct Htypf as [Hm|[? [? Ht]]]; [exact Hm|rewrite Ht in Hn; discriminate].
+        -- exact Hgo.
+        -- exact Hopt.
+      * unfold same_returns_fn. cbn [fget]. unfold same_param_fn. cbn [g_typ g_doc g_default].
+        apply andb_true_iff. split; [apply andb_true_iff; split|].
+        -- unfold C02Spec.same_typ. cbn [g_typ]. destruct Htypf as [Hm|[c0 [t Ht]]].
+           ++ rewrite Hm. cbn [rtyp fget]. destruct (in_none_types (VStr (c :: s))); reflexivity.
+           ++ rewrite Ht. cbn [rtyp fget C02Spec.opt_str_eqb]. apply str_eqb_refl.
+        -- exact Hpr_back.
+        -- unfold C02Spec.default_same. cbn [g_default]. rewrite Hdef. apply same_default_back.
+Qed.
+
+(* ------------------------------------------------------------------ *)
+(* what every positional / keyword-only parameter of an in-guard description provides *)
+(* ------------------------------------------------------------------ *)
+Lemma rdflt_expr_ok : forall g v, g_default g = Some (DV v) -> value_ok v = true -> str_ok v = true ->
+  expr_ok (rdflt g) = true.
+Proof.
+  intros g v Hg Hv Hs. destruct (in_none_types v) eqn:En.
+  - rewrite (rdflt_none_like g v Hg En). reflexivity.
+  - destruct v as [|b|z|r|s].
+    + rewrite in_none_types_VNone in En. discriminate.
+    + rewrite (rdflt_bool g b Hg). reflexivity.
+    + rewrite (rdflt_int g z Hg). destruct (z <? 0)%Z; [|reflexivity]. cbn [expr_ok]. rewrite known_usub. reflexivity.
+    + cbn [value_ok] in Hv. apply andb_true_iff in Hv. destruct Hv as [Hv _]. apply andb_true_iff in Hv. destruct Hv as [Hn _].
+      apply negb_true_iff in Hn. rewrite (rdflt_float g r Hg Hn). destruct r as [|c r']; [reflexivity|].
+      destruct (ascii_eqb c (ch 45)); [|reflexivity]. cbn [expr_ok]. rewrite known_usub. reflexivity.
+    + cbn [str_ok] in Hs. rewrite En in Hs. cbn [orb] in Hs. cbn [value_ok] in Hv.
+      rewrite (rdflt_str g s Hg En Hs Hv). cbn [expr_ok]. exact Hv.
+Qed.
+
+Record emitted_param_facts (o : fopts) (g : gparam) : Prop := mkEPF {
+  epf_fits : typ_fits o g;
+  epf_scalar : default_scalar g;
+  epf_stable : ann_stable o g;
+  epf_reparses : dflt_reparses g;
+  epf_ann_ok : forall e, ann_of o g = Some e -> expr_ok e = true;
+  epf_dflt_ok : expr_ok (rdflt g) = true
+}.
+
+Lemma param_emitted_facts : forall o g v, entry_in_domain g = true -> param_facts o g v -> emitted_param_facts o g.
+Proof.
+  intros o g v Hdom F. destruct F as [Hdef Hval Hstr _ Htyped _].
+  destruct (entry_fields g Hdom) as (_ & Htypf & _).
+  assert (Hann : (exists e, ann_of o g = Some e /\ reparse_expr e = Ok e /\ expr_ok e = true) \/ ann_of o g = None).
+  { destruct (fo_inline o) eqn:Ei; [|right; apply ann_of_none; left; exact Ei].
+    destruct Htypf as [Hm|[c [t Ht]]]; [right; apply ann_of_none; right; exact Hm|].
+    destruct (Htyped _ Ht) as (_ & Hin & _).
+    destruct (ann_of_typed o g (c :: t) Ei Ht (Hin eq_refl)) as (e & He & Hre & Hok & _). left. exists e. auto. }
+  constructor.
+  - unfold typ_fits. destruct Htypf as [Hm|[c [t Ht]]]; [rewrite Hm; exact I|]. rewrite Ht. apply (Htyped _ Ht).
+  - unfold default_scalar. rewrite Hdef. exact I.
+  - unfold ann_stable. destruct Hann as [(e & He & Hre & _)|Hn]; [rewrite He; cbn [reparse_opt]; rewrite Hre; reflexivity|].
+    rewrite Hn. reflexivity.
+  - apply (dflt_reparses_ok g v Hdef Hval Hstr).
+  - intros e He. destruct Hann as [(e' & He' & _ & Hok)|Hn]; [rewrite He' in He; inversion He; subst; exact Hok|congruence].
+  - apply (rdflt_expr_ok g v Hdef Hval Hstr).
+Qed.
+
+Lemma reparsed_exprs_ok : forall o i,
+  (forall kv, In kv (nkp i) -> emitted_param_facts o (snd kv)) -> arg_exprs_ok (reparsed_arguments o i) = true.
+Proof.
+  intros o i H. unfold arg_exprs_ok.
+  assert (Ha0 : forallb (fun x => match a_ann x with Some e => expr_ok e | None => true end) (args0 (fo_kind o)) = true).
+  { unfold args0. destruct (str_eqb (fo_kind o) (L "static")); reflexivity. }
+  assert (Ha : forallb (fun x => match a_ann x with Some e => expr_ok e | None => true end) (afp_of o i) = true).
+  { unfold afp_of. apply forallb_forall. intros x Hx. apply in_map_iff in Hx. destruct Hx as [kv [<- Hkv]]. cbn [a_ann].
+    destruct (ann_of o (snd kv)) as [e|] eqn:E; [|reflexivity]. apply (epf_ann_ok _ _ (H kv Hkv)); exact E. }
+  assert (Hd : forallb expr_ok (rdfp_of i) = true).
+  { unfold rdfp_of. apply forallb_forall. intros x Hx. apply in_map_iff in Hx. destruct Hx as [kv [<- Hkv]].
+    apply (epf_dflt_ok _ _ (H kv Hkv)). }
+  assert (Hdo : forallb (fun d => match d with Some e => expr_ok e | None => true end) (map Some (rdfp_of i)) = true).
+  { apply forallb_forall. intros x Hx. apply in_map_iff in Hx. destruct Hx as [e [<- He]].
+    rewrite forallb_forall in Hd. apply Hd; exact He. }
+  unfold reparsed_arguments. destruct (fo_kwonly o); cbn [ar_args ar_kwonly ar_defaults ar_kw_defaults];
+    rewrite ?forallb_app, ?Ha0, ?Ha, ?Hd, ?Hdo; reflexivity.
+Qed.
+
+(* ------------------------------------------------------------------ *)
+(* C03_partial                                                         *)
+(* ------------------------------------------------------------------ *)
+Theorem C03_partial_lemma : forall o i text d,
+  guard_C03 o i = true -> doc_agrees o i d = true -> C03_at o i text d.
+Proof.
+  intros o i text d G DA. pose proof (guard_inv o i G) as GF.
+  unfold doc_agrees in DA. apply andb_true_iff in DA. destruct DA as [DAp DAr].
+  destruct (returns_round_trip o i d GF DAr)
+    as (rv & rv' & ann & ann' & Hrv & Hann & Hrvre & Hannre & rets & rets' & Hir & Hfin & Hsame_r).
+  assert (Hps : forall kv, In kv (nkp i) -> emitted_param_facts o (snd kv)).
+  { intros [n g] Hin. cbn [snd]. apply nkp_In in Hin. destruct Hin as [HinP Hnk].
+    pose proof (gf_entries _ _ GF n g HinP) as Hdom.
+    destruct (param_class_inv o n g Hnk Hdom (gf_params _ _ GF n g HinP)) as [v F].
+    apply (param_emitted_facts o g v Hdom F). }
+  assert (Hemit : emit_fn o i (Ok text) = Ok (SFunc fname (emitted_arguments o i) (emitted_body text rv) [] ann)).
+  { apply emit_fn_shape; [exact (gf_kind _ _ GF)|exact (gf_internal _ _ GF)| |exact Hrv|exact Hann].
+    intros kv Hkv. split; [apply (epf_fits _ _ (Hps kv Hkv))|apply (epf_scalar _ _ (Hps kv Hkv))]. }
+  assert (Hre : reparse_stmt (SFunc fname (emitted_arguments o i) (emitted_body text rv) [] ann)
+                = Ok (SFunc fname (reparsed_arguments o i) (emitted_body text rv') [] ann')).
+  { apply reparse_emitted; [|exact Hrvre|exact Hannre].
+    intros kv Hkv. split; [apply (epf_stable _ _ (Hps kv Hkv))|apply (epf_reparses _ _ (Hps kv Hkv))]. }
+  destruct (params_round_trip o i d GF DAp) as (T & app & m & params2 & Hkw & HmT & HmO & Hm & Hsnt & Hsame_p).
+  pose proof (reparsed_exprs_ok o i Hps) as Hok.
+  destruct (parse_fn_eq d fname (reparsed_arguments o i) (EmitAst.set_value_str text) (opt_list rv') ann'
+                        T app m params2 rets rets' Hok Hkw HmT HmO Hm Hsnt Hir Hfin) as [it Hparse].
+  unfold C03_at, round_trip_fn. rewrite Hemit. cbn [bind]. rewrite Hre. cbn [bind].
+  unfold emitted_body, EmitAst.set_value. rewrite Hparse.
+  eexists. split; [reflexivity|].
+  unfold same_interface_fn. cbn [ir_params ir_returns]. rewrite Hsame_p, Hsame_r. cbn [andb].
+  unfold kind_preserved. cbn [ir_type].
+  assert (HinS : forallb not_self_cls (nk_names i) = true).
+  { apply forallb_forall. intros n Hn. unfold nk_names in Hn. apply in_map_iff in Hn. destruct Hn as [[n' g] [E Hin]].
+    cbn [fst] in E. subst n'. apply nkp_In in Hin. destruct Hin as [Hin _].
+    apply (name_facts n). apply (gf_names _ _ GF). apply in_map_iff. exists (n, g). auto. }
+  rewrite (found_type_kind o i (gf_kind _ _ GF) HinS). apply str_eqb_refl.
+Qed.
+
+(* ================================================================== *)
+(* Signature-level codec, outside the guard: for EVERY description the emitter accepts *)
+(* ================================================================== *)
+
+(* the argument list emit.function builds, in its two layouts *)
+Definition layout (kw : bool) (k : str) (afp : list arg) (dfp : list expr) (kwarg : option arg) : arguments :=
+  if kw then mkArguments (args0 k) [] afp (map Some dfp) None kwarg
+  else mkArguments (args0 k ++ afp) dfp [] [] None kwarg.
+
+Lemma emit_fn_inv : forall o i tds s, kind_in_domain (fo_kind o) = true -> emit_fn o i tds = Ok s ->
+  exists afp dfp text rest ret,
+    s = SFunc fname (layout (fo_kwonly o) (fo_kind o) afp dfp (kwarg_of i)) (SExpr (EConst (VStr text)) :: rest) [] ret
+    /\ map a_name afp = nk_names i /\ List.length dfp = List.length afp.
+Proof.
+  intros o i tds s Hk H. unfold emit_fn in H.
+  destruct (EmitAst.emit_function (fo_pt o) i (Some fname) (Some (fo_kind o)) (fo_inline o) (fo_kwonly o) tds) as [[s0 i0]|] eqn:E;
+    cbn [bind fst] in H; [|discriminate]. inversion H; subst s0. clear H.
+  unfold EmitAst.emit_function in E.
+  assert (Hf : EmitAst.py_or (Some fname) (ir_name i) = Ok (Some fname)) by reflexivity.
+  rewrite Hf in E. cbn [bind] in E.
+  assert (Hkd : EmitAst.py_or (Some (fo_kind o)) (ir_type i) = Ok (Some (fo_kind o))).
+  { destruct (kind_cases _ Hk) as [Ek|[Ek|Ek]]; rewrite Ek; reflexivity. }
+  rewrite Hkd in E. cbn [bind] in E.
+  apply EmitAstFacts.bind_Ok in E. destruct E as [afp [Hafp E]].
+  apply EmitAstFacts.bind_Ok in E. destruct E as [dfp [Hdfp E]].
+  apply EmitAstFacts.bind_Ok in E. destruct E as [ib [_ E]].
+  apply EmitAstFacts.bind_Ok in E. destruct E as [rv [_ E]].
+  apply EmitAstFacts.bind_Ok in E. destruct E as [text [_ E]].
+  apply EmitAstFacts.bind_Ok in E. destruct E as [ret [_ E]].
+  inversion E; subst s i0. clear E.
+  exists afp, dfp, (EmitAst.set_value_str text). eexists. exists ret. split.
+  - unfold layout, args0, kwarg_of, kwp, EmitAst.set_arg, EmitAst.set_value. destruct (fo_kwonly o); reflexivity.
+  - split.
+    + unfold nk_names, nkp. apply (C06Facts.map_outcome_arg_names _ _ _ _ Hafp).
+    + rewrite (EmitAstFacts.map_outcome_length _ _ _ Hdfp), (EmitAstFacts.map_outcome_length _ _ _ Hafp). reflexivity.
+Qed.
+
+Lemma mapM_length : forall {A B} (f : A -> outcome B) l l', mapM f l = Ok l' -> List.length l' = List.length l.
+Proof. intros A B f l l' H. apply mapM_Forall2 in H. induction H as [|x y l l' _ _ IH]; [reflexivity|]. cbn [List.length]. rewrite IH. reflexivity. Qed.
+
+Lemma reparse_args_names : forall l l', mapM reparse_arg l = Ok l' -> map a_name l' = map a_name l.
+Proof.
+  intros l l' H. apply mapM_Forall2 in H. induction H as [|x y l l' Hxy _ IH]; [reflexivity|]. cbn [map]. f_equal; [|exact IH].
+  unfold reparse_arg in Hxy. destruct (reparse_opt (a_ann x)); cbn [bind] in Hxy; [|discriminate]. inversion Hxy; reflexivity.
+Qed.
+
+Lemma mapM_app_inv : forall {A B} (f : A -> outcome B) l1 l2 r,
+  mapM f (l1 ++ l2) = Ok r -> exists r1 r2, mapM f l1 = Ok r1 /\ mapM f l2 = Ok r2 /\ r = r1 ++ r2.
+Proof.
+  intros A B f l1; induction l1 as [|x l1 IH]; intros l2 r H; cbn [app mapM] in *.
+  - exists [], r. auto.
+  - destruct (f x) as [y|]; cbn [bind] in *; [|discriminate].
+    destruct (mapM f (l1 ++ l2)) as [ys|] eqn:E; cbn [bind] in *; [|discriminate]. inversion H; subst r.
+    destruct (IH l2 ys E) as (r1 & r2 & H1 & H2 & ->). rewrite H1. cbn [bind]. exists (y :: r1), r2. auto.
+Qed.
+
+Lemma reparse_opt_Some_map : forall l l', mapM reparse_opt (map Some l) = Ok l' -> exists l2, l' = map Some l2 /\ List.length l2 = List.length l.
+Proof.
+  induction l as [|x l IH]; intros l' H; cbn [map mapM] in H.
+  - inversion H. exists []. auto.
+  - cbn [reparse_opt] in H. destruct (reparse_expr x) as [y|]; cbn [bind] in H; [|discriminate].
+    destruct (mapM reparse_opt (map Some l)) as [ys|] eqn:E; cbn [bind] in H; [|discriminate]. inversion H; subst l'.
+    destruct (IH ys eq_refl) as (l2 & -> & Hl). exists (y :: l2). cbn [map List.length]. auto.
+Qed.
+
+(* the unparse / re-parse step keeps the layout, the names and the pairing of arguments and defaults *)
+Lemma reparse_layout : forall kw k afp dfp kwarg a',
+  reparse_arguments (layout kw k afp dfp kwarg) = Ok a' ->
+  exists afp' dfp' kwarg', a' = layout kw k afp' dfp' kwarg'
+    /\ map a_name afp' = map a_name afp /\ List.length dfp' = List.length dfp
+    /\ option_map a_name kwarg' = option_map a_name kwarg.
+Proof.
+  intros kw k afp dfp kwarg a' H. unfold reparse_arguments, layout in H.
+  assert (Hkwarg : forall kw', reparse_opt_arg kwarg = Ok kw' -> option_map a_name kw' = option_map a_name kwarg).
+  { intros kw' Hx. unfold reparse_opt_arg in Hx. destruct kwarg as [x|]; [|inversion Hx; reflexivity].
+    unfold reparse_arg in Hx. destruct (reparse_opt (a_ann x)); cbn [bind] in Hx; [|discriminate]. inversion Hx; reflexivity. }
+  destruct kw; cbn [ar_args ar_defaults ar_kwonly ar_kw_defaults ar_vararg ar_kwarg] in H.
+  - rewrite reparse_args0 in H. cbn [bind mapM] in H.
+    destruct (mapM reparse_arg afp) as [afp'|] eqn:Ea; cbn [bind] in H; [|discriminate].
+    destruct (mapM reparse_opt (map Some dfp)) as [kwd|] eqn:Ed; cbn [bind reparse_opt_arg] in H; [|discriminate].
+    destruct (reparse_opt_arg kwarg) as [kw'|] eqn:Ek; cbn [bind] in H; [|discriminate]. inversion H; subst a'.
+    destruct (reparse_opt_Some_map dfp kwd Ed) as (dfp' & -> & Hl).
+    exists afp', dfp', kw'. split; [reflexivity|]. split; [apply reparse_args_names; exact Ea|]. split; [exact Hl|apply Hkwarg; reflexivity].
+  - destruct (mapM reparse_arg (args0 k ++ afp)) as [args'|] eqn:Ea; cbn [bind] in H; [|discriminate].
+    destruct (mapM_app_inv _ _ _ _ Ea) as (r1 & afp' & H1 & H2 & ->). rewrite reparse_args0 in H1. inversion H1; subst r1.
+    destruct (mapM reparse_expr dfp) as [dfp'|] eqn:Ed; cbn [bind mapM reparse_opt_arg] in H; [|discriminate].
+    destruct (reparse_opt_arg kwarg) as [kw'|] eqn:Ek; cbn [bind] in H; [|discriminate]. inversion H; subst a'.
+    exists afp', dfp', kw'. split; [reflexivity|]. split; [apply reparse_args_names; exact H2|].
+    split; [apply (mapM_length _ _ _ Ed)|apply Hkwarg; reflexivity].
+Qed.
+
+(* get_function_type reads the kind back from either layout *)
+Lemma layout_kind : forall kw k afp dfp kwarg,
+  kind_in_domain k = true -> forallb not_self_cls (map a_name afp) = true ->
+  get_function_type (layout kw k afp dfp kwarg) = k.
+Proof.
+  intros kw k afp dfp kwarg Hk Hn. unfold get_function_type, layout, args0.
+  destruct (kind_cases _ Hk) as [E|[E|E]]; rewrite E.
+  - change (str_eqb (L "static") (L "static")) with true. cbv iota.
+    destruct kw; cbn [ar_args app]; [reflexivity|].
+    destruct afp as [|x l]; [reflexivity|]. cbn [map forallb] in Hn. apply andb_true_iff in Hn. destruct Hn as [Hn _].
+    unfold not_self_cls in Hn. apply negb_true_iff in Hn. rewrite Hn. reflexivity.
+  - change (str_eqb (L "self") (L "static")) with false. cbv iota. destruct kw; reflexivity.
+  - change (str_eqb (L "cls") (L "static")) with false. cbv iota. destruct kw; reflexivity.
+Qed.
+
+Lemma layout_pos_args : forall kw k afp dfp kwarg,
+  kind_in_domain k = true -> forallb not_self_cls (map a_name afp) = true ->
+  pos_args (layout kw k afp dfp kwarg) = if kw then [] else afp.
+Proof.
+  intros kw k afp dfp kwarg Hk Hn. unfold pos_args. rewrite (layout_kind kw k afp dfp kwarg Hk Hn).
+  unfold layout, args0. destruct (kind_cases _ Hk) as [E|[E|E]]; rewrite E.
+  - change (str_eqb (L "static") (L "static")) with true. cbv iota. destruct kw; reflexivity.
+  - change (str_eqb (L "self") (L "static")) with false. cbv iota. destruct kw; reflexivity.
+  - change (str_eqb (L "cls") (L "static")) with false. cbv iota. destruct kw; reflexivity.
+Qed.
+
+(* POSITIONAL vs KEYWORD-ONLY default alignment: in both layouts parse.function pairs the k-th parameter with the
+   k-th default node (every parameter carries one: len defaults = len parameters) *)
+Theorem C03_default_alignment_lemma : forall kw k afp dfp kwarg,
+  kind_in_domain k = true -> forallb not_self_cls (map a_name afp) = true -> List.length dfp = List.length afp ->
+  sig_pairs (layout kw k afp dfp kwarg) (pos_args (layout kw k afp dfp kwarg))
+  = map2 func_arg2param afp (map Some dfp).
+Proof.
+  intros kw k afp dfp kwarg Hk Hn Hl. unfold sig_pairs. rewrite (layout_pos_args kw k afp dfp kwarg Hk Hn).
+  unfold layout. destruct kw; cbn [ar_defaults ar_kw_defaults ar_kwonly map map2 app List.length].
+  - rewrite pad_defaults_exact by (rewrite map_length; symmetry; exact Hl). reflexivity.
+  - rewrite app_nil_r. rewrite pad_defaults_exact by (rewrite map_length; symmetry; exact Hl). reflexivity.
+Qed.
+
+(* parse.function reports the kind it finds in the argument list *)
+Lemma parse_function_type : forall pi pj d n a b dc r it ww res,
+  parse_function pi pj d (SFunc n a b dc r) it ww None None = Ok res -> ir_type res = Has (get_function_type a).
+Proof.
+  intros pi pj d n a b dc r it ww res H. unfold parse_function in H.
+  destruct (pf_prepare d (SFunc n a b dc r) None None) as [pp|] eqn:Epp; cbn [bind] in H; [|discriminate].
+  destruct (ir_merge pi pj (pp_target pp) (pp_other pp)) as [m|] eqn:Em; cbn [bind] in H; [|discriminate].
+  assert (Ht : ir_type (pp_target pp) = Has (get_function_type a)).
+  { unfold pf_prepare in Epp. destruct (negb (arg_exprs_ok a)); [discriminate|]. cbn [negb] in Epp.
+    apply EmitAstFacts.bind_Ok in Epp. destruct Epp as [base [_ Epp]].
+    apply EmitAstFacts.bind_Ok in Epp. destruct Epp as [kw [_ Epp]]. inversion Epp; subst pp. reflexivity. }
+  assert (Hm : ir_type m = ir_type (pp_target pp)).
+  { unfold ir_merge in Em. destruct (negb _); [discriminate|].
+    apply EmitAstFacts.bind_Ok in Em. destruct Em as [ps [_ Em]].
+    apply EmitAstFacts.bind_Ok in Em. destruct Em as [rs [_ Em]]. inversion Em; reflexivity. }
+  unfold pf_finish in H.
+  apply EmitAstFacts.bind_Ok in H. destruct H as [p2 [_ H]].
+  apply EmitAstFacts.bind_Ok in H. destruct H as [rets [_ H]].
+  apply EmitAstFacts.bind_Ok in H. destruct H as [rets' [_ H]]. inversion H; subst res. cbn [ir_type]. rewrite Hm. exact Ht.
+Qed.
+
+(* KIND: static / self / cls is preserved by every round trip that succeeds, for every description whose
+   parameters are not themselves called self or cls *)
+Theorem C03_kind_lemma : forall o i tds d r,
+  kind_in_domain (fo_kind o) = true -> forallb not_self_cls (nk_names i) = true ->
+  round_trip_fn o i tds d = Ok r -> kind_preserved (fo_kind o) r = true.
+Proof.
+  intros o i tds d r Hk Hn H. unfold round_trip_fn in H.
+  apply EmitAstFacts.bind_Ok in H. destruct H as [s [Hs H]].
+  apply EmitAstFacts.bind_Ok in H. destruct H as [s' [Hs' H]].
+  destruct (emit_fn_inv o i tds s Hk Hs) as (afp & dfp & text & rest & ret & -> & Hnames & Hlen).
+  unfold reparse_stmt in Hs'. rewrite fname_identifier in Hs'. cbn [negb] in Hs'.
+  apply EmitAstFacts.bind_Ok in Hs'. destruct Hs' as [a' [Ha' Hs']].
+  apply EmitAstFacts.bind_Ok in Hs'. destruct Hs' as [b' [_ Hs']].
+  apply EmitAstFacts.bind_Ok in Hs'. destruct Hs' as [dc' [_ Hs']].
+  apply EmitAstFacts.bind_Ok in Hs'. destruct Hs' as [r' [_ Hs']]. inversion Hs'; subst s'.
+  destruct (reparse_layout _ _ _ _ _ _ Ha') as (afp' & dfp' & kwarg' & -> & Hn' & _ & _).
+  unfold parse_fn in H. apply parse_function_type in H. unfold kind_preserved. rewrite H.
+  rewrite layout_kind; [apply str_eqb_refl|exact Hk|]. rewrite Hn', Hnames. exact Hn.
+Qed.
+
+(* NAMES AND ORDER, from C06 (the emitted argument list carries the IR's names in order) and C07 (parse.function lists
+   the signature's names in source order, then a documented ** parameter): for every description, whatever its types,
+   prose and defaults, whenever the round trip succeeds on a well-formed definition *)
+Theorem C03_names_order_lemma : forall o i tds d s s' r,
+  kind_in_domain (fo_kind o) = true -> forallb not_self_cls (nk_names i) = true ->
+  emit_fn o i tds = Ok s -> reparse_stmt s = Ok s' -> C07_domain (Some d) s' = true -> parse_fn (Some d) s' = Ok r ->
+  od_keys (ir_params r)
+  = nk_names i ++ (match kwarg_of i with
+                   | Some k => if mem_str (a_name k) (od_keys (ir_params d)) then [a_name k] else []
+                   | None => []
+                   end).
+Proof.
+  intros o i tds d s s' r Hk Hn Hs Hs' Hdom H.
+  unfold parse_fn in H. rewrite (parse_function_names _ _ _ _ _ _ _ _ _ Hdom H).
+  destruct (emit_fn_inv o i tds s Hk Hs) as (afp & dfp & text & rest & ret & -> & Hnames & Hlen).
+  unfold reparse_stmt in Hs'. rewrite fname_identifier in Hs'. cbn [negb] in Hs'.
+  apply EmitAstFacts.bind_Ok in Hs'. destruct Hs' as [a' [Ha' Hs']].
+  apply EmitAstFacts.bind_Ok in Hs'. destruct Hs' as [b' [Hb' Hs']].
+  apply EmitAstFacts.bind_Ok in Hs'. destruct Hs' as [dc' [_ Hs']].
+  apply EmitAstFacts.bind_Ok in Hs'. destruct Hs' as [r' [_ Hs']]. inversion Hs'; subst s'.
+  destruct (reparse_layout _ _ _ _ _ _ Ha') as (afp' & dfp' & kwarg' & -> & Hn' & Hl' & Hkw').
+  cbn [mapM reparse_body_stmt] in Hb'. cbn [bind] in Hb'.
+  destruct (mapM reparse_body_stmt rest) as [rest'|]; cbn [bind] in Hb'; [|discriminate]. inversion Hb'; subst b'.
+  unfold C07_domain in Hdom. apply andb_true_iff in Hdom. destruct Hdom as [Hwf Hdoc].
+  pose proof (wf_doc_facts _ _ _ _ _ _ Hdoc) as D.
+  rewrite (expected_names_domain _ _ _ _ _ _ D).
+  assert (Hn2 : forallb not_self_cls (map a_name afp') = true) by (rewrite Hn', Hnames; exact Hn).
+  unfold sig_pos_names. rewrite (layout_pos_args _ _ _ _ _ Hk Hn2).
+  assert (Hsp : map a_name (if fo_kwonly o then [] else afp') ++ map a_name (ar_kwonly (layout (fo_kwonly o) (fo_kind o) afp' dfp' kwarg'))
+                = nk_names i).
+  { unfold layout. destruct (fo_kwonly o); cbn [ar_kwonly map app]; rewrite ?app_nil_r, Hn', Hnames; reflexivity. }
+  rewrite Hsp. f_equal.
+  unfold kwarg_documented, kwarg_name.
+  assert (Hkn : ar_kwarg (layout (fo_kwonly o) (fo_kind o) afp' dfp' kwarg') = kwarg') by (unfold layout; destruct (fo_kwonly o); reflexivity).
+  rewrite Hkn. unfold doc_names, doc_params, fd_body. cbn [docstring_of].
+  destruct kwarg' as [k'|]; destruct (kwarg_of i) as [k|]; cbn [option_map] in Hkw'; try discriminate; [|reflexivity].
+  inversion Hkw' as [Hkk]. cbn [option_map opt_list]. rewrite Hkk.
+  destruct (mem_str (a_name k) (od_keys (ir_params d))); reflexivity.
+Qed.
+
+(* ================================================================== *)
+(* Named codec theorems (restatements) *)
+(* ================================================================== *)
+
+(* INLINE ANNOTATIONS: for a canonical type the emitter writes an annotation that the unparse / re-parse step leaves
+   alone and that parse.function prints back as the very type string *)
+Theorem C03_annotation_codec_lemma : forall o n g t dflt,
+  fo_inline o = true -> g_typ g = Has t -> typ_inline_ok t = true ->
+  exists e, EmitAst.arg_of_param (fo_pt o) true (n, g) = Ok (mkArg n (Some e))
+            /\ reparse_expr e = Ok e
+            /\ g_typ (snd (func_arg2param (mkArg n (Some e)) dflt)) = Has t.
+Proof.
+  intros o n g t dflt Hi Ht Hok.
+  destruct (ann_of_typed o g t Hi Ht Hok) as (e & He & Hre & _ & Hshow).
+  exists e. split.
+  - assert (Hf : typ_fits o g) by (unfold typ_fits; rewrite Ht; intros _; exact Hok).
+    pose proof (arg_of_param_fits o n g Hf) as H. rewrite Hi, He in H. exact H.
+  - split; [exact Hre|]. unfold func_arg2param. cbn [snd g_typ a_ann]. rewrite Hshow. reflexivity.
+Qed.
+
+(* DEFAULTS, per value class (None / bool / int >= 0 / int < 0 / float / str): the default node the emitter writes, after
+   unparse / re-parse, is read back by _infer_default as the same value with the same Python type *)
+Theorem C03_default_codec_lemma : forall q g v nq,
+  g_default g = Some (DV v) -> value_ok v = true -> str_ok v = true ->
+  needs_quoting (fget (g_typ q)) = Ok nq ->
+  (forall t, g_typ q = Has t -> code_val v = true -> contains [ch 91] t = true) ->
+  (fld_is_none (g_typ q) = true -> in_none_types v || code_val v = true) ->
+  infer_default q (DE (rdflt g)) false = Ok (mkG (g_doc q) (rtyp (g_typ q) v) (Some (back v)))
+  /\ C02Spec.same_default (DV v) (back v) = true.
+Proof. intros. split; [eapply infer_default_codec; eassumption|apply same_default_back]. Qed.
+
+(* ================================================================== *)
+(* Refutation, non-vacuity *)
+(* ================================================================== *)
+Definition w3_opts : fopts := mkFO (L "static") true true 1 true false true [].
+
+(* one keyword-only parameter x: int without default, emitted with the default None *)
+Definition w3_ir : ir :=
+  mkIR (Has (L "f")) (Has (L "static")) (Has (L "Summary."))
+       [(L "x", mkG (Has (L "the x.")) (Has (L "int")) None)] FNone None.
+
+Definition w3_doc : ir :=
+  mkIR FNone (Has (L "static")) (Has (L "Summary."))
+       [(L "x", mkG (Has (L "the x.")) Missing None)] FNone None.
+
+Lemma C03_refuted_lemma : ~ C03_statement.
+Proof.
+  intros H. specialize (H w3_opts w3_ir (L "text") w3_doc).
+  destruct H as [r [Hr Hs]]; [vm_compute; reflexivity|vm_compute; reflexivity|].
+  assert (Hb : C03_at_b w3_opts w3_ir (L "text") w3_doc = false) by (vm_compute; reflexivity).
+  unfold C03_at_b in Hb. rewrite Hr in Hb. congruence.
+Qed.
+
+Lemma C03_witness_class : finding_class_C03 w3_opts w3_ir = Some K3_no_default_becomes_none.
+Proof. vm_compute. reflexivity. Qed.
+
+Definition nv3_opts : fopts := mkFO (L "self") true false 2 true false true [].
+
+Definition nv3_ir : ir :=
+  mkIR (Has (L "f")) (Has (L "static")) (Has (L "Summary."))
+       [(L "dataset_name", mkG (Has (L "name of the dataset.")) (Has (L "str")) (Some (DV (VStr (L "mnist")))));
+        (L "K", mkG (Has (L "backend.")) (Has (L "Literal['np', 'tf']")) (Some (DV (VStr (L "np")))));
+        (L "lr", mkG Missing (Has (L "Optional[float]")) (Some (DV VNone)));
+        (L "n", mkG (Has (L "count.")) (Has (L "int")) (Some (DV (VInt (-5)%Z))));
+        (L "flag", mkG (Has (L "whether.")) (Has (L "bool")) (Some (DV (VBool true))));
+        (L "items", mkG (Has (L "the items.")) (Has (L "List[int]")) (Some (DV (VStr (L "```[1, 2]```")))));
+        (L "data_loader_kwargs", mkG (Has (L "passed on.")) (Has (L "Optional[dict]")) (Some (DV (VStr NoneStr))))]
+       (Has (mkG (Has (L "the pair.")) (Has (L "Tuple[int, int]")) (Some (DV (VStr (L "```[1, 2]```")))))) None.
+
+Definition nv3_doc : ir :=
+  mkIR FNone (Has (L "static")) (Has (L "Summary."))
+       [(L "dataset_name", mkG (Has (L "name of the dataset.")) Missing None);
+        (L "K", mkG (Has (L "backend.")) Missing None);
+        (L "n", mkG (Has (L "count.")) Missing None);
+        (L "flag", mkG (Has (L "whether.")) Missing None);
+        (L "items", mkG (Has (L "the items.")) Missing None);
+        (L "data_loader_kwargs", mkG (Has (L "passed on.")) (Has (L "Optional[dict]")) (Some (DV (VStr NoneStr))))]
+       (Has (mkG (Has (L "the pair.")) Missing None)) None.
+
+Lemma C03_nonvacuous_lemma :
+  guard_C03 nv3_opts nv3_ir = true /\ doc_agrees nv3_opts nv3_ir nv3_doc = true
+  /\ List.length (ir_params nv3_ir) = 7 /\ C03_at_b nv3_opts nv3_ir (L "text") nv3_doc = true.
+Proof. vm_compute. repeat split; reflexivity. Qed.
+
+(* ================================================================== *)
+(* Class-free corollaries *)
+(* ================================================================== *)
+Lemma first_class_all_None : forall f ps, (forall n g, In (n, g) ps -> f n g = None) -> first_class f ps = None.
+Proof.
+  intros f ps; induction ps as [|[n g] ps IH]; intros H; cbn [first_class]; [reflexivity|].
+  rewrite (H n g (or_introl eq_refl)). apply IH. intros n' g' Hin. apply H. right; exact Hin.
+Qed.
+
+Definition plain_prose (doc : str) : bool := prose_safe doc && negb (starts_optional doc).
+
+(* a documented parameter with a scalar type name and a default of a scalar kind that is not back-tick code *)
+Definition scalar_param (kv : str * gparam) : bool :=
+  negb (kwargs_name (fst kv))
+  && match g_doc (snd kv), g_typ (snd kv), g_default (snd kv) with
+     | Has (c :: r), Has t, Some (DV v) =>
+       plain_prose (c :: r) && in_simple_types t
+       && match v with
+          | VStr s => (in_none_types (VStr s) || str_keeps_quotes s) && negb (code_quoted s)
+          | _ => true
+          end
+     | _, _, _ => false
+     end.
+
+Definition scalar_ir (o : fopts) (i : ir) : bool :=
+  C03_domain o i && negb (fo_edd o)
+  && negb (match ir_doc i with Has d => C02Spec.prose_has_token d | _ => false end)
+  && forallb scalar_param (ir_params i)
+  && match ir_returns i with FNone => true | _ => false end.
+
+Lemma simple_types_parse : forallb (fun t => typ_parses t && ret_typ_inline_ok t) Extracted.simple_type_names = true.
+Proof. vm_compute. reflexivity. Qed.
+
+Lemma simple_type_facts : forall t, in_simple_types t = true -> typ_parses t = true /\ ret_typ_inline_ok t = true.
+Proof.
+  intros t H. unfold in_simple_types in H. apply existsb_exists in H. destruct H as [x [Hin Hx]].
+  apply str_eqb_eq in Hx. subst x. pose proof simple_types_parse as Hp. rewrite forallb_forall in Hp.
+  specialize (Hp t Hin). apply andb_true_iff in Hp. exact Hp.
+Qed.
+
+Lemma prose_class_plain : forall g c r, g_doc g = Has (c :: r) -> plain_prose (c :: r) = true -> prose_class g = None.
+Proof.
+  intros g c r Hd Hp. unfold prose_class, prose_of, C02Spec.prose_of. rewrite Hd.
+  unfold plain_prose in Hp. apply andb_true_iff in Hp. destruct Hp as [Hs Ho]. rewrite Hs. cbn [negb].
+  apply negb_true_iff in Ho. change (C02Spec.prose_starts_optional (c :: r)) with (starts_optional (c :: r)). rewrite Ho. reflexivity.
+Qed.
+
+Theorem C03_scalar_guard : forall o i, scalar_ir o i = true -> guard_C03 o i = true.
+Proof.
+  intros o i H. unfold scalar_ir in H.
+  apply andb_true_iff in H. destruct H as [H Hret]. apply andb_true_iff in H. destruct H as [H Hps].
+  apply andb_true_iff in H. destruct H as [H Hsum]. apply andb_true_iff in H. destruct H as [H Hedd].
+  apply negb_true_iff in Hedd. apply negb_true_iff in Hsum.
+  unfold guard_C03. rewrite H. cbn [andb]. unfold finding_class_C03. rewrite Hedd, Hsum. cbn [andb].
+  rewrite first_class_all_None.
+  - destruct (ir_returns i); try discriminate; reflexivity.
+  - intros n g Hin. rewrite forallb_forall in Hps. specialize (Hps (n, g) Hin). unfold scalar_param in Hps. cbn [fst snd] in Hps.
+    apply andb_true_iff in Hps. destruct Hps as [Hk Hg]. apply negb_true_iff in Hk.
+    unfold C03Spec.param_class. rewrite Hk.
+    destruct (g_doc g) as [| |[|c r]] eqn:Ed; try discriminate.
+    destruct (g_typ g) as [| |t] eqn:Et; try discriminate.
+    destruct (g_default g) as [[v|e|x]|] eqn:Edf; try discriminate.
+    apply andb_true_iff in Hg. destruct Hg as [Hg Hv]. apply andb_true_iff in Hg. destruct Hg as [Hp Hst].
+    rewrite (prose_class_plain g c r Ed Hp).
+    destruct (simple_type_facts t Hst) as [Htp _].
+    assert (Hreq : (match dv_str (DV v) with
+                    | Some s => negb (in_none_types (VStr s)) && negb (str_keeps_quotes s)
+                    | None => false
+                    end) = false).
+    { destruct v as [| | | |s]; try reflexivity. cbn [dv_str]. apply andb_true_iff in Hv. destruct Hv as [Hv _].
+      destruct (in_none_types (VStr s)); [reflexivity|]. cbn [orb] in Hv. rewrite Hv. reflexivity. }
+    rewrite Hreq, Htp. cbn [negb].
+    assert (Hin_ok : typ_inline_ok t = true) by (unfold typ_inline_ok; rewrite Hst; reflexivity).
+    rewrite Hin_ok. cbn [negb]. rewrite andb_false_r.
+    assert (Hhp : has_prose g = true) by (unfold has_prose, prose_of, C02Spec.prose_of; rewrite Ed; reflexivity).
+    rewrite Hhp. cbn [negb]. rewrite andb_false_r.
+    assert (Hcq : C02Spec.d_code_quoted (DV v) = false).
+    { destruct v as [| | | |s]; try reflexivity. cbn [C02Spec.d_code_quoted]. apply andb_true_iff in Hv. destruct Hv as [_ Hv].
+      apply negb_true_iff in Hv. rewrite Hv. reflexivity. }
+    rewrite Hcq. reflexivity.
+Qed.
+
+(* every documented, scalar-typed, defaulted description round-trips, inline or docstring types, positional or keyword-only,
+   static / self / cls, any number of parameters *)
+Theorem C03_scalar_lemma : forall o i text d,
+  scalar_ir o i = true -> doc_agrees o i d = true -> C03_at o i text d.
+Proof. intros o i text d H DA. apply C03_partial_lemma; [apply C03_scalar_guard; exact H|exact DA]. Qed.
+
+(* a function that documents only its return value: parsing never raises *)
+Definition return_only_ir (o : fopts) (i : ir) : bool :=
+  C03_domain o i && negb (fo_edd o)
+  && negb (match ir_doc i with Has d => C02Spec.prose_has_token d | _ => false end)
+  && match ir_params i, ir_returns i with
+     | [], Has g =>
+       match g_doc g, g_default g with
+       | Has (c :: r), None =>
+         plain_prose (c :: r)
+         && match g_typ g with Has t => in_simple_types t | Missing => true | FNone => false end
+       | _, _ => false
+       end
+     | _, _ => false
+     end.
+
+Theorem C03_return_only_guard : forall o i, return_only_ir o i = true -> guard_C03 o i = true.
+Proof.
+  intros o i H. unfold return_only_ir in H.
+  apply andb_true_iff in H. destruct H as [H Hr]. apply andb_true_iff in H. destruct H as [H Hsum].
+  apply andb_true_iff in H. destruct H as [H Hedd]. apply negb_true_iff in Hedd. apply negb_true_iff in Hsum.
+  unfold guard_C03. rewrite H. cbn [andb]. unfold finding_class_C03. rewrite Hedd, Hsum. cbn [andb].
+  destruct (ir_params i); [|discriminate]. cbn [first_class].
+  destruct (ir_returns i) as [| |g]; try discriminate.
+  destruct (g_doc g) as [| |[|c r]] eqn:Ed; try discriminate.
+  destruct (g_default g) eqn:Edf; [discriminate|].
+  apply andb_true_iff in Hr. destruct Hr as [Hp Ht].
+  unfold C03Spec.return_class. rewrite (prose_class_plain g c r Ed Hp). rewrite Edf.
+  assert (Hhp : has_prose g = true) by (unfold has_prose, prose_of, C02Spec.prose_of; rewrite Ed; reflexivity).
+  rewrite Hhp. unfold return_typ_class.
+  destruct (g_typ g) as [| |t]; [reflexivity|discriminate|].
+  destruct (simple_type_facts t Ht) as [Htp Hri]. rewrite Htp, Hri. cbn [negb orb]. rewrite andb_false_r. reflexivity.
+Qed.
+
+Theorem C03_return_only_lemma : forall o i text d,
+  return_only_ir o i = true -> doc_agrees o i d = true -> C03_at o i text d.
+Proof. intros o i text d H DA. apply C03_partial_lemma; [apply C03_return_only_guard; exact H|exact DA]. Qed.
